@@ -1,26 +1,1596 @@
-//! C30: not implemented yet.
+//! C30: dependency fetching is crash-safe.
+//!
+//! Fault enumeration over the REAL fetch path of forc-pkg (`source::git::{pin, fetch}`,
+//! `impl Fetch for git::Pinned`), run in dedicated child processes with HOME redirected:
+//!
+//!  * a dry run of `swverif c30-fetch` under strace lists every file-system syscall the fetching
+//!    thread issues; every (syscall, k-th invocation) that mutates the file system below
+//!    `$HOME/.forc` is a crash point (strace `inject=<syscall>:signal=SIGKILL:when=k`) and an
+//!    I/O failure point (`:error=EIO|ENOSPC:when=k`);
+//!  * the H6 hook points inside `fetch` are abort points / failure points;
+//!  * two concurrent fetchers on one HOME, the lock holder killed inside the critical section.
+//!
+//! After every fault a fresh, fault-free child builds the same consumer with the same HOME
+//! ("the later build"). Oracle: that build must succeed, and the checkout directory it compiled
+//! against must be byte-identical to the pinned commit's tree as read from the fixture
+//! repository through git2 (+ a valid `.forc_index` naming that commit).
 use crate::common::*;
 use crate::{Plan, Prop};
+use rand::Rng;
+use serde_json::{json, Value};
+use std::collections::{BTreeMap, BTreeSet};
+use std::os::unix::fs::PermissionsExt;
+use std::os::unix::process::{CommandExt, ExitStatusExt};
+use std::path::{Path, PathBuf};
+use std::time::{Duration, Instant};
 
 pub static META: PropertyMeta = PropertyMeta {
     id: "C30",
-    level: "exploration",
-    rule: "not implemented",
-    assumptions: &[],
-    floor_evaluations: 1,
-    floor_nontrivial: 2,
-    required_counters: &[],
+    level: "fault_enumeration",
+    rule: "one case = (git reference kind, fault) on a seed-determined local file:// repository (2 commits, 21-43 files of 0 B..0.9 MB, nested dirs, exec bit, symlink; the library package `deplib` at its root): fault = SIGKILL / EIO / ENOSPC at the k-th invocation of one file-system syscall of the fetching thread (enumerated from a strace dry run), abort or injected error at a named hook point inside fetch, or a killed lock holder with a concurrent waiter; each followed by a fault-free build in a new process. non-trivial = the fault really struck (tracee killed / syscall marked INJECTED / hook point reached) at or after the first file-system mutation below $HOME/.forc; distinct = (reference kind, fault kind, syscall, k | point)",
+    assumptions: &[
+        "a crash is a process kill (SIGKILL): what the kernel has accepted survives; power loss / un-synced page cache is not modelled",
+        "strace's per-syscall `when=k` counter identifies the same invocation in the dry run and in the fault run (checked per case: the syscall name and path of the struck invocation are compared with the dry run and drifts are counted)",
+        "only the thread that performs the fetch is traced (strace without -f); the dry run under `strace -f` confirms no other thread of the child issues file-system mutations below $HOME/.forc",
+        "git2/libgit2 reads of the fixture repository made by the harness (expected tree) are trusted",
+    ],
+    floor_evaluations: 12,
+    floor_nontrivial: 8,
+    required_counters: &["baseline_ok", "fault_struck_kill", "hook_abort_struck", "hook_fail_struck", "recovery_runs", "recovery_refetched", "tree_compared_ok"],
 };
 
 pub static PROP: Prop = Prop {
     meta: &META,
-    plan: |_t| Plan { nshards: 1, budget_s: 1.0, mem_gib: 0 },
-    shard: |_ctx| {
-        let mut r = ShardResult::default();
-        r.harness_fault = Some("not implemented".into());
-        r
-    },
-    replay: crate::no_replay,
-    extra: crate::no_extra,
-    subcommand: crate::no_subcommand,
+    plan: |t| Plan { nshards: 16, budget_s: t.pick(70.0, 1380.0), mem_gib: 8 },
+    shard,
+    replay,
+    extra,
+    subcommand,
 };
+
+/// hook points of H6; `fetch.renamed` only exists once the checkout is moved into place by a
+/// rename (proposed fix) - a point that is never reached is counted, not judged
+const POINTS: [&str; 6] = ["fetch.locked", "fetch.head_set", "fetch.dir_created", "fetch.checked_out", "fetch.index_written", "fetch.renamed"];
+const REF_KINDS: [&str; 4] = ["rev", "tag", "branch", "default"];
+const DEP: &str = "deplib";
+const RESULT_TAG: &str = "C30RESULT ";
+/// per child watchdog (a normal run takes well under a second)
+const CHILD_WATCHDOG: Duration = Duration::from_secs(90);
+
+/// syscalls traced in the dry run (`?` = tolerate names unknown to this strace/arch): the
+/// file-system mutating calls (+ flock) ...
+const TRACE_SET_MUTATING: &str = "?open,?openat,?openat2,?creat,?mkdir,?mkdirat,?write,?pwrite64,?writev,?pwritev,?rename,?renameat,?renameat2,?unlink,?unlinkat,?rmdir,?link,?linkat,?symlink,?symlinkat,?chmod,?fchmod,?fchmodat,?truncate,?ftruncate,?fallocate,?fsync,?fdatasync,?utimensat,?flock";
+/// ... and, in the thorough tier, the read side as well (targets of injected EIO)
+const TRACE_SET_READ: &str = "?read,?pread64,?getdents64,?stat,?lstat,?fstat,?newfstatat,?statx,?access,?faccessat,?faccessat2,?readlink,?readlinkat,?lseek";
+
+fn trace_set(tier: Tier) -> String {
+    match tier {
+        Tier::Quick => TRACE_SET_MUTATING.to_string(),
+        Tier::Thorough => format!("{TRACE_SET_MUTATING},{TRACE_SET_READ}"),
+    }
+}
+
+// ------------------------------------------------------------------------------------------
+// The child: `swverif c30-fetch <home> <consumer_dir> [--fail-at P | --abort-at P | --hold-at P]`
+
+fn subcommand(args: &[String]) -> Option<i32> {
+    if args.first().map(|s| s.as_str()) != Some("c30-fetch") {
+        return None;
+    }
+    Some(child_main(&args[1..]))
+}
+
+fn child_main(a: &[String]) -> i32 {
+    use std::sync::{Arc, Mutex};
+    use sway_types::verif_hooks::{install, Action, Kind};
+    if a.len() < 2 {
+        eprintln!("usage: c30-fetch <home> <consumer_dir> [--fail-at P|--abort-at P|--hold-at P]");
+        return 2;
+    }
+    let home = PathBuf::from(&a[0]);
+    let consumer = a[1].clone();
+    if !home.starts_with(Path::new(VERIF).join("work")) {
+        eprintln!("c30-fetch: refusing a HOME outside /verif/work");
+        return 2;
+    }
+    // the parent sets HOME as well; set it here too so that a direct invocation is safe
+    std::env::set_var("HOME", &home);
+    std::env::remove_var("XDG_CONFIG_HOME");
+    let (mut mode, mut at) = (String::new(), String::new());
+    if a.len() >= 4 {
+        mode = a[2].clone();
+        at = a[3].clone();
+    }
+    // forc reports diagnostics through `tracing`; print them to the log of this child
+    let _ = tracing::subscriber::set_global_default(LogSubscriber);
+    let points: Arc<Mutex<Vec<String>>> = Arc::new(Mutex::new(vec![]));
+    {
+        let points = points.clone();
+        let home = home.clone();
+        install(Some(Arc::new(move |_k: Kind, name: &'static str, _d: &str| {
+            points.lock().unwrap().push(name.to_string());
+            if name == at {
+                match mode.as_str() {
+                    "--fail-at" => {
+                        let _ = std::fs::write(home.join("c30.struck"), name);
+                        return Action::Fail;
+                    }
+                    "--abort-at" => {
+                        let _ = std::fs::write(home.join("c30.struck"), name);
+                        unsafe {
+                            libc::kill(libc::getpid(), libc::SIGKILL);
+                        }
+                        loop {
+                            std::thread::sleep(Duration::from_secs(1));
+                        }
+                    }
+                    "--hold-at" => {
+                        let _ = std::fs::write(home.join("c30.held"), name);
+                        loop {
+                            std::thread::sleep(Duration::from_secs(1));
+                        }
+                    }
+                    _ => {}
+                }
+            }
+            Action::Continue
+        })));
+    }
+    let mut out = json!({"ok": false, "phase": "plan", "error": Value::Null, "dep_dir": Value::Null, "commit": Value::Null});
+    let opts = forc_pkg::PkgOpts { path: Some(consumer.clone()), offline: false, terse: true, locked: false, output_directory: None, ipfs_node: Default::default() };
+    // exactly what `forc build` does first: BuildPlan::from_pkg_opts -> from_lock_and_manifests ->
+    // fetch_graph -> source::Source::pin -> git::Source::pin + git::Pinned::fetch
+    let r = catch(std::panic::AssertUnwindSafe(|| forc_pkg::BuildPlan::from_pkg_opts(&opts)));
+    match r {
+        Err((loc, msg)) => {
+            out["error"] = json!(format!("panic at {loc}: {msg}"));
+            out["panic"] = json!(true);
+        }
+        Ok(Err(e)) => out["error"] = json!(format!("{e:#}")),
+        Ok(Ok(plan)) => {
+            out["phase"] = json!("build");
+            let graph = plan.graph();
+            for n in graph.node_indices() {
+                let p = &graph[n];
+                if p.name == DEP {
+                    if let forc_pkg::source::Pinned::Git(g) = &p.source {
+                        out["commit"] = json!(g.commit_hash);
+                    }
+                    if let Some(m) = plan.manifest_map().get(&p.id()) {
+                        use forc_pkg::manifest::GenericManifestFile;
+                        out["dep_dir"] = json!(m.dir().display().to_string());
+                    }
+                }
+            }
+            let outputs: std::collections::HashSet<_> = plan.member_nodes().collect();
+            let profile = forc_pkg::BuildProfile::debug();
+            let b = catch(std::panic::AssertUnwindSafe(|| forc_pkg::build(&plan, sway_core::BuildTarget::default(), &profile, &outputs, &[], &[], None)));
+            match b {
+                Err((loc, msg)) => {
+                    out["error"] = json!(format!("panic at {loc}: {msg}"));
+                    out["panic"] = json!(true);
+                }
+                Ok(Err(e)) => out["error"] = json!(format!("{e:#}")),
+                Ok(Ok(built)) => {
+                    out["ok"] = json!(true);
+                    out["built"] = json!(built.len());
+                }
+            }
+        }
+    }
+    out["points"] = json!(*points.lock().unwrap());
+    println!("{RESULT_TAG}{out}");
+    0
+}
+
+/// Minimal `tracing` subscriber: prints every event's fields to stderr.
+struct LogSubscriber;
+
+struct LogVisitor(String);
+
+impl tracing::field::Visit for LogVisitor {
+    fn record_debug(&mut self, field: &tracing::field::Field, value: &dyn std::fmt::Debug) {
+        if field.name() == "message" {
+            self.0.push_str(&format!("{value:?}"));
+        } else {
+            self.0.push_str(&format!(" {}={value:?}", field.name()));
+        }
+    }
+    fn record_str(&mut self, field: &tracing::field::Field, value: &str) {
+        if field.name() == "message" {
+            self.0.push_str(value);
+        } else {
+            self.0.push_str(&format!(" {}={value}", field.name()));
+        }
+    }
+}
+
+impl tracing::Subscriber for LogSubscriber {
+    fn enabled(&self, m: &tracing::Metadata<'_>) -> bool {
+        *m.level() <= tracing::Level::INFO
+    }
+    fn new_span(&self, _: &tracing::span::Attributes<'_>) -> tracing::span::Id {
+        tracing::span::Id::from_u64(1)
+    }
+    fn record(&self, _: &tracing::span::Id, _: &tracing::span::Record<'_>) {}
+    fn record_follows_from(&self, _: &tracing::span::Id, _: &tracing::span::Id) {}
+    fn event(&self, event: &tracing::Event<'_>) {
+        let mut v = LogVisitor(String::new());
+        event.record(&mut v);
+        eprintln!("[{}] {}", event.metadata().level(), v.0);
+    }
+    fn enter(&self, _: &tracing::span::Id) {}
+    fn exit(&self, _: &tracing::span::Id) {}
+}
+
+// ------------------------------------------------------------------------------------------
+// Fixture: a local git repository holding the library package `deplib`, and a consumer package
+
+#[derive(Clone, Debug)]
+struct Fixture {
+    repo: PathBuf,
+    url: String,
+    /// first commit (tag v1.0.0, branch `rel`), second commit (branch `main`, HEAD)
+    c1: String,
+    c2: String,
+    nfiles: usize,
+    bytes: u64,
+}
+
+impl Fixture {
+    fn pinned_commit(&self, kind: &str) -> &str {
+        match kind {
+            "default" => &self.c2,
+            _ => &self.c1,
+        }
+    }
+    fn dep_line(&self, kind: &str) -> String {
+        match kind {
+            "rev" => format!("{DEP} = {{ git = \"{}\", rev = \"{}\" }}", self.url, self.c1),
+            "tag" => format!("{DEP} = {{ git = \"{}\", tag = \"v1.0.0\" }}", self.url),
+            "branch" => format!("{DEP} = {{ git = \"{}\", branch = \"rel\" }}", self.url),
+            _ => format!("{DEP} = {{ git = \"{}\" }}", self.url),
+        }
+    }
+}
+
+fn gen_files(seed: u64) -> BTreeMap<String, (Vec<u8>, bool)> {
+    let mut rng = rng_for(seed, 0xC30, 0);
+    let mut files: BTreeMap<String, (Vec<u8>, bool)> = BTreeMap::new();
+    files.insert(
+        "Forc.toml".into(),
+        (format!("[project]\nauthors = [\"verif\"]\nentry = \"lib.sw\"\nlicense = \"Apache-2.0\"\nname = \"{DEP}\"\nimplicit-std = false\n\n[dependencies]\n").into_bytes(), false),
+    );
+    let k: u64 = rng.gen_range(1..1000);
+    files.insert("src/lib.sw".into(), (format!("library;\n\nmod util;\nmod deep;\n\npub fn dep_value() -> u64 {{\n    __add(__add(util::base(), deep::inner::more()), {k})\n}}\n").into_bytes(), false));
+    files.insert("src/util.sw".into(), (b"library;\n\npub fn base() -> u64 {\n    40\n}\n".to_vec(), false));
+    files.insert("src/deep.sw".into(), (b"library;\n\npub mod inner;\n".to_vec(), false));
+    files.insert("src/deep/inner.sw".into(), (b"library;\n\npub fn more() -> u64 {\n    2\n}\n".to_vec(), false));
+    files.insert(".gitignore".into(), (b"out\ntarget\n".to_vec(), false));
+    files.insert("README.md".into(), (format!("# deplib fixture {seed}\n").into_bytes(), false));
+    // data files before and after `src/` in index order, nested directories
+    let dirs = ["assets", "assets/img", "assets/img/raw/a/b", "docs", "docs/api", "scripts", "tests", "tests/data", "tests/data/x/y/z", "vendor/third/party", "zz"];
+    let n: usize = rng.gen_range(8..=30);
+    for i in 0..n {
+        let d = dirs[rng.gen_range(0..dirs.len())];
+        let len = match rng.gen_range(0..10) {
+            0 => 0,
+            1..=6 => rng.gen_range(1..2000),
+            7..=8 => rng.gen_range(2000..20_000),
+            _ => rng.gen_range(20_000..70_000),
+        };
+        let mut data = vec![0u8; len];
+        rng.fill(&mut data[..]);
+        files.insert(format!("{d}/f{i:02}.bin"), (data, false));
+    }
+    // a few large blobs (multi-page writes), one early and one late in index order
+    for (p, lo, hi) in [("assets/big0.dat", 150_000, 400_000), ("zz/big1.dat", 300_000, 900_000), ("tests/big2.dat", 70_000, 140_000)] {
+        let len = rng.gen_range(lo..hi);
+        let mut data = vec![0u8; len];
+        rng.fill(&mut data[..]);
+        files.insert(p.into(), (data, false));
+    }
+    files.insert("scripts/run.sh".into(), (b"#!/bin/sh\necho fixture\n".to_vec(), true));
+    files.insert("tests/empty.txt".into(), (vec![], false));
+    files
+}
+
+fn make_fixture(root: &Path, seed: u64) -> Result<Fixture, String> {
+    let e = |x: git2::Error| format!("git2: {x}");
+    let repo_dir = root.join("deplib-origin");
+    clean_dir(&repo_dir);
+    let mut opts = git2::RepositoryInitOptions::new();
+    opts.initial_head("main");
+    let repo = git2::Repository::init_opts(&repo_dir, &opts).map_err(e)?;
+    let files = gen_files(seed);
+    let write_all = |files: &BTreeMap<String, (Vec<u8>, bool)>| -> Result<(), String> {
+        for (p, (data, exec)) in files {
+            let fp = repo_dir.join(p);
+            std::fs::create_dir_all(fp.parent().unwrap()).map_err(|x| x.to_string())?;
+            std::fs::write(&fp, data).map_err(|x| x.to_string())?;
+            if *exec {
+                std::fs::set_permissions(&fp, std::fs::Permissions::from_mode(0o755)).map_err(|x| x.to_string())?;
+            }
+        }
+        Ok(())
+    };
+    write_all(&files)?;
+    std::os::unix::fs::symlink("../README.md", repo_dir.join("docs/readme-link")).map_err(|x| x.to_string())?;
+    let commit = |msg: &str, t: i64, parents: &[&git2::Commit]| -> Result<git2::Oid, String> {
+        let mut index = repo.index().map_err(e)?;
+        index.add_all(["*"].iter(), git2::IndexAddOption::FORCE, None).map_err(e)?;
+        index.update_all(["*"].iter(), None).map_err(e)?;
+        index.write().map_err(e)?;
+        let tree = repo.find_tree(index.write_tree().map_err(e)?).map_err(e)?;
+        let sig = git2::Signature::new("verif", "verif@example.invalid", &git2::Time::new(t, 0)).map_err(e)?;
+        repo.commit(Some("HEAD"), &sig, &sig, msg, &tree, parents).map_err(e)
+    };
+    let c1 = commit("first", 1_700_000_000, &[])?;
+    let c1c = repo.find_commit(c1).map_err(e)?;
+    repo.tag_lightweight("v1.0.0", c1c.as_object(), true).map_err(e)?;
+    repo.branch("rel", &c1c, true).map_err(e)?;
+    // second commit on main: change, add and delete files so that the two trees differ
+    let mut files2: BTreeMap<String, (Vec<u8>, bool)> = BTreeMap::new();
+    files2.insert("src/util.sw".into(), (b"library;\n\npub fn base() -> u64 {\n    41\n}\n".to_vec(), false));
+    files2.insert("docs/CHANGELOG.md".into(), (b"second commit\n".to_vec(), false));
+    files2.insert("zz/big1.dat".into(), (vec![7u8; 123_457], false));
+    write_all(&files2)?;
+    std::fs::remove_file(repo_dir.join("tests/empty.txt")).map_err(|x| x.to_string())?;
+    let c2 = commit("second", 1_700_000_100, &[&c1c])?;
+    let bytes = files.values().map(|v| v.0.len() as u64).sum();
+    Ok(Fixture { url: format!("file://{}", repo_dir.display()), repo: repo_dir, c1: c1.to_string(), c2: c2.to_string(), nfiles: files.len() + 1, bytes })
+}
+
+fn write_consumer(dir: &Path, fx: &Fixture, kind: &str) {
+    clean_dir(dir);
+    std::fs::create_dir_all(dir.join("src")).ok();
+    let toml = format!("[project]\nauthors = [\"verif\"]\nentry = \"lib.sw\"\nlicense = \"Apache-2.0\"\nname = \"consumer\"\nimplicit-std = false\n\n[dependencies]\n{}\n", fx.dep_line(kind));
+    std::fs::write(dir.join("Forc.toml"), toml).expect("write consumer manifest");
+    std::fs::write(dir.join("src/lib.sw"), format!("library;\n\nuse {DEP}::dep_value;\n\npub fn consumer_value() -> u64 {{\n    __add(dep_value(), 1)\n}}\n")).expect("write consumer source");
+}
+
+// ------------------------------------------------------------------------------------------
+// Trees
+
+#[derive(Clone, Debug, PartialEq, Eq)]
+enum Ent {
+    File { sha: String, len: u64, exec: bool },
+    Link(String),
+}
+
+fn commit_tree(repo_path: &Path, commit: &str) -> Result<BTreeMap<String, Ent>, String> {
+    let e = |x: git2::Error| format!("git2: {x}");
+    let repo = git2::Repository::open(repo_path).map_err(e)?;
+    let c = repo.find_commit(git2::Oid::from_str(commit).map_err(e)?).map_err(e)?;
+    let tree = c.tree().map_err(e)?;
+    let mut out = BTreeMap::new();
+    let mut err = None;
+    tree.walk(git2::TreeWalkMode::PreOrder, |dir, entry| {
+        if entry.kind() == Some(git2::ObjectType::Blob) {
+            let name = match entry.name() {
+                Some(n) => format!("{dir}{n}"),
+                None => {
+                    err = Some("non-utf8 name".to_string());
+                    return git2::TreeWalkResult::Abort;
+                }
+            };
+            match repo.find_blob(entry.id()) {
+                Ok(b) => {
+                    let mode = entry.filemode();
+                    if mode == 0o120000 {
+                        out.insert(name, Ent::Link(String::from_utf8_lossy(b.content()).to_string()));
+                    } else {
+                        out.insert(name, Ent::File { sha: sha_hex(b.content()), len: b.content().len() as u64, exec: mode & 0o111 != 0 });
+                    }
+                }
+                Err(x) => {
+                    err = Some(format!("git2: {x}"));
+                    return git2::TreeWalkResult::Abort;
+                }
+            }
+        }
+        git2::TreeWalkResult::Ok
+    })
+    .map_err(e)?;
+    match err {
+        Some(x) => Err(x),
+        None => Ok(out),
+    }
+}
+
+/// (files and links below `dir` except the top-level `.forc_index`, empty directories)
+fn dir_tree(dir: &Path) -> (BTreeMap<String, Ent>, Vec<String>) {
+    let mut out = BTreeMap::new();
+    let mut empty = vec![];
+    for ent in walkdir::WalkDir::new(dir).follow_links(false).min_depth(1).into_iter().filter_map(|x| x.ok()) {
+        let rel = ent.path().strip_prefix(dir).unwrap().to_string_lossy().to_string();
+        let ft = ent.file_type();
+        if ft.is_symlink() {
+            let t = std::fs::read_link(ent.path()).map(|p| p.to_string_lossy().to_string()).unwrap_or_default();
+            out.insert(rel, Ent::Link(t));
+        } else if ft.is_dir() {
+            if std::fs::read_dir(ent.path()).map(|mut d| d.next().is_none()).unwrap_or(false) {
+                empty.push(rel);
+            }
+        } else {
+            if rel == ".forc_index" {
+                continue;
+            }
+            let data = std::fs::read(ent.path()).unwrap_or_default();
+            let exec = ent.metadata().map(|m| m.permissions().mode() & 0o111 != 0).unwrap_or(false);
+            out.insert(rel, Ent::File { sha: sha_hex(&data), len: data.len() as u64, exec });
+        }
+    }
+    (out, empty)
+}
+
+#[derive(Clone, Debug, Default)]
+struct TreeDiff {
+    missing: Vec<String>,
+    different: Vec<String>,
+    extra: Vec<String>,
+    /// "ok" | "missing" | "invalid" | "wrong-commit"
+    index: String,
+    present: usize,
+    /// entries present in git's degraded representation (see `degraded_representation`)
+    degraded: usize,
+}
+
+impl TreeDiff {
+    fn tree_ok(&self) -> bool {
+        self.missing.is_empty() && self.different.is_empty() && self.extra.is_empty()
+    }
+    fn ok(&self) -> bool {
+        self.tree_ok() && self.index == "ok"
+    }
+    /// outcome class used in signatures (no file names, no counts): an incomplete tree
+    /// (missing / truncated / extra entries) dominates; otherwise what is wrong with the index
+    fn class(&self) -> String {
+        if !self.tree_ok() {
+            return "incomplete-tree".into();
+        }
+        match self.index.as_str() {
+            "ok" => "ok",
+            "missing" => "index-missing",
+            "invalid" => "index-invalid",
+            _ => "index-wrong-commit",
+        }
+        .into()
+    }
+    /// detail for counters
+    fn detail(&self) -> Vec<&'static str> {
+        let mut parts = vec![];
+        if !self.missing.is_empty() {
+            parts.push("missing-files");
+        }
+        if !self.different.is_empty() {
+            parts.push("truncated-or-different-files");
+        }
+        if !self.extra.is_empty() {
+            parts.push("extra-entries");
+        }
+        if self.index != "ok" {
+            parts.push("bad-index");
+        }
+        parts
+    }
+    fn brief(&self) -> String {
+        let f = |v: &Vec<String>| format!("{}{}", v.len(), v.first().map(|s| format!(" (e.g. {s})")).unwrap_or_default());
+        format!("missing={} different={} extra={} index={} present={}", f(&self.missing), f(&self.different), f(&self.extra), self.index, self.present)
+    }
+}
+
+/// git's documented representation of a tree on a file system it has probed as lacking
+/// symlinks (`core.symlinks=false`: the link becomes a regular file holding the target path) or
+/// lacking an executable bit (`core.filemode=false`). libgit2 makes these probes when the
+/// temporary repository is initialised, and an injected I/O error can make a probe fail. The
+/// content is complete and nothing is partially written, so this is not counted as a difference.
+fn degraded_representation(expected: &Ent, actual: &Ent) -> bool {
+    match (expected, actual) {
+        (Ent::Link(t), Ent::File { sha, .. }) => *sha == sha_hex(t.as_bytes()),
+        (Ent::File { sha: s1, len: l1, exec: true }, Ent::File { sha: s2, len: l2, exec: false }) => s1 == s2 && l1 == l2,
+        _ => false,
+    }
+}
+
+fn compare_checkout(dir: &Path, expected: &BTreeMap<String, Ent>, commit: &str) -> TreeDiff {
+    let (actual, empty_dirs) = dir_tree(dir);
+    let mut d = TreeDiff::default();
+    for (p, e) in expected {
+        match actual.get(p) {
+            None => d.missing.push(p.clone()),
+            Some(a) if a == e => d.present += 1,
+            Some(a) if degraded_representation(e, a) => {
+                d.present += 1;
+                d.degraded += 1;
+            }
+            Some(_) => d.different.push(p.clone()),
+        }
+    }
+    for p in actual.keys() {
+        if !expected.contains_key(p) {
+            d.extra.push(p.clone());
+        }
+    }
+    for p in empty_dirs {
+        d.extra.push(format!("{p}/"));
+    }
+    d.index = match std::fs::read_to_string(dir.join(".forc_index")) {
+        Err(_) => "missing".into(),
+        Ok(s) => match serde_json::from_str::<forc_pkg::source::git::SourceIndex>(&s) {
+            Err(_) => "invalid".into(),
+            Ok(ix) if ix.head_with_time.0 == commit => "ok".into(),
+            Ok(_) => "wrong-commit".into(),
+        },
+    };
+    d
+}
+
+/// State of the forc cache below `home` after a fault: (class, tmp leftovers, checkout dir if any)
+fn classify_state(home: &Path, expected: &BTreeMap<String, Ent>, commit: &str) -> (String, bool, Option<PathBuf>) {
+    let checkouts = home.join(".forc/git/checkouts");
+    if !home.join(".forc").exists() {
+        return ("nothing".into(), false, None);
+    }
+    let tmp_left = std::fs::read_dir(checkouts.join("tmp")).map(|mut d| d.next().is_some()).unwrap_or(false);
+    let mut final_dir = None;
+    let mut other_commit_dirs = 0;
+    if let Ok(rd) = std::fs::read_dir(&checkouts) {
+        for e in rd.filter_map(|e| e.ok()) {
+            let name = e.file_name().to_string_lossy().to_string();
+            if name.starts_with(&format!("{DEP}-")) {
+                if let Ok(rd2) = std::fs::read_dir(e.path()) {
+                    for c in rd2.filter_map(|c| c.ok()) {
+                        if c.file_name().to_string_lossy() == commit {
+                            final_dir = Some(c.path());
+                        } else {
+                            other_commit_dirs += 1;
+                        }
+                    }
+                }
+            }
+        }
+    }
+    let class = match &final_dir {
+        None => {
+            if other_commit_dirs > 0 {
+                "staging-only"
+            } else if tmp_left {
+                "tmp-only"
+            } else {
+                "no-checkout"
+            }
+            .to_string()
+        }
+        Some(dir) => {
+            let d = compare_checkout(dir, expected, commit);
+            if d.ok() {
+                "final-dir:complete".into()
+            } else if d.present == 0 && d.different.is_empty() && d.extra.is_empty() && d.index == "missing" {
+                "final-dir:empty".into()
+            } else if d.tree_ok() {
+                format!("final-dir:complete-tree-{}", d.class())
+            } else {
+                "final-dir:partial".into()
+            }
+        }
+    };
+    (class, tmp_left, final_dir)
+}
+
+// ------------------------------------------------------------------------------------------
+// Running children
+
+#[derive(Clone, Debug, PartialEq)]
+enum Exit {
+    Code(i32),
+    Signal(i32),
+    Timeout,
+    SpawnError(String),
+}
+
+#[derive(Clone, Debug)]
+struct RunOut {
+    exit: Exit,
+    result: Option<Value>,
+}
+
+impl RunOut {
+    fn ok(&self) -> bool {
+        self.result.as_ref().map(|r| r["ok"] == json!(true)).unwrap_or(false)
+    }
+    fn error(&self) -> String {
+        self.result.as_ref().and_then(|r| r["error"].as_str().map(|s| s.to_string())).unwrap_or_default()
+    }
+    fn points(&self) -> Vec<String> {
+        self.result.as_ref().and_then(|r| serde_json::from_value(r["points"].clone()).ok()).unwrap_or_default()
+    }
+    fn refetched(&self) -> bool {
+        self.points().iter().any(|p| p == "fetch.dir_created")
+    }
+}
+
+struct Strace<'a> {
+    trace_file: &'a Path,
+    follow: bool,
+    /// e.g. "openat:signal=SIGKILL:when=7"
+    inject: Option<String>,
+    /// trace set; for fault runs only the struck syscall needs tracing
+    trace_set: String,
+}
+
+fn spawn_child(home: &Path, consumer: &Path, extra: &[String], st: Option<&Strace>, log: &Path) -> std::io::Result<std::process::Child> {
+    let exe = std::env::current_exe()?;
+    let mut cmd;
+    if let Some(st) = st {
+        cmd = std::process::Command::new("strace");
+        cmd.arg("-o").arg(st.trace_file).arg("-y").arg("-s").arg("0").arg("-e").arg(format!("trace={}", st.trace_set));
+        if st.follow {
+            // only used without injection: signal injection does not work at seccomp stops
+            cmd.arg("-f").arg("--seccomp-bpf");
+        }
+        if let Some(i) = &st.inject {
+            cmd.arg("-e").arg(format!("inject={i}"));
+        }
+        cmd.arg(&exe);
+    } else {
+        cmd = std::process::Command::new(&exe);
+    }
+    cmd.arg("c30-fetch").arg(home).arg(consumer).args(extra);
+    let out = std::fs::File::create(log)?;
+    let err = out.try_clone()?;
+    cmd.env("HOME", home)
+        .env_remove("XDG_CONFIG_HOME")
+        .env_remove("RUST_LOG")
+        .env("GIT_CONFIG_NOSYSTEM", "1")
+        .current_dir(consumer)
+        .stdin(std::process::Stdio::null())
+        .stdout(out)
+        .stderr(err)
+        .process_group(0);
+    cmd.spawn()
+}
+
+fn kill_group(child: &mut std::process::Child) {
+    unsafe {
+        libc::kill(-(child.id() as i32), libc::SIGKILL);
+    }
+    let _ = child.kill();
+    let _ = child.wait();
+}
+
+fn wait_child(mut child: std::process::Child, log: &Path, start: Instant) -> RunOut {
+    let exit = loop {
+        match child.try_wait() {
+            Ok(Some(st)) => {
+                break match (st.code(), st.signal()) {
+                    (Some(c), _) => Exit::Code(c),
+                    (None, Some(s)) => Exit::Signal(s),
+                    _ => Exit::Code(-1),
+                }
+            }
+            Ok(None) => {
+                if start.elapsed() > CHILD_WATCHDOG {
+                    kill_group(&mut child);
+                    break Exit::Timeout;
+                }
+                std::thread::sleep(Duration::from_millis(3));
+            }
+            Err(e) => break Exit::SpawnError(e.to_string()),
+        }
+    };
+    // make sure nothing of the group survives (e.g. a tracee whose tracer died)
+    unsafe {
+        libc::kill(-(child.id() as i32), libc::SIGKILL);
+    }
+    let text = std::fs::read_to_string(log).unwrap_or_default();
+    let result = text.lines().rev().find_map(|l| l.find(RESULT_TAG).and_then(|i| serde_json::from_str::<Value>(&l[i + RESULT_TAG.len()..]).ok()));
+    RunOut { exit, result }
+}
+
+fn run_child(home: &Path, consumer: &Path, extra: &[String], st: Option<&Strace>, log: &Path) -> RunOut {
+    let start = Instant::now();
+    match spawn_child(home, consumer, extra, st, log) {
+        Ok(c) => wait_child(c, log, start),
+        Err(e) => RunOut { exit: Exit::SpawnError(e.to_string()), result: None },
+    }
+}
+
+// ------------------------------------------------------------------------------------------
+// Trace parsing
+
+#[derive(Clone, Debug)]
+struct Call {
+    name: String,
+    /// rank among the calls with the same name of the same tracee (what strace's `when=` counts)
+    k: u32,
+    /// "core" = below $HOME/.forc but not inside the temporary git repository (checkout / staging
+    /// directory, lock files, directory skeleton); "tmp" = inside `.git` of the temporary git
+    /// repository below $HOME/.forc/git/checkouts/tmp; "outside"
+    zone: &'static str,
+    /// mutates the file system (by name, or by open flags)
+    mutating: bool,
+    /// compact description for evidence / drift detection (paths and hex ids normalised)
+    what: String,
+}
+
+#[derive(Default)]
+struct TraceInfo {
+    /// calls of the main tracee (the process strace started), in order
+    calls: Vec<Call>,
+    /// per other tracee: syscall name -> number of calls
+    others: BTreeMap<String, BTreeMap<String, u32>>,
+    /// other tracees that mutate below $HOME/.forc
+    others_mutating_cache: u64,
+    killed: bool,
+    injected: usize,
+}
+
+fn is_mutating(name: &str, line: &str) -> bool {
+    match name {
+        "open" | "openat" | "openat2" => line.contains("O_CREAT") || line.contains("O_WRONLY") || line.contains("O_RDWR") || line.contains("O_TRUNC"),
+        "creat" | "mkdir" | "mkdirat" | "write" | "pwrite64" | "writev" | "pwritev" | "rename" | "renameat" | "renameat2" | "unlink" | "unlinkat" | "rmdir" | "link" | "linkat" | "symlink" | "symlinkat" | "chmod" | "fchmod" | "fchmodat" | "truncate" | "ftruncate" | "fallocate" | "fsync" | "fdatasync" | "utimensat" => true,
+        _ => false,
+    }
+}
+
+fn is_mutating_name(name: &str, what: &str) -> bool {
+    is_mutating(name, what)
+}
+
+fn allocating(name: &str) -> bool {
+    matches!(name, "open" | "openat" | "openat2" | "creat" | "mkdir" | "mkdirat" | "write" | "pwrite64" | "writev" | "pwritev" | "rename" | "renameat" | "renameat2" | "symlink" | "symlinkat" | "link" | "linkat" | "ftruncate" | "fallocate")
+}
+
+fn normalise_what(line: &str, home: &str, root: &str) -> String {
+    // keep the call up to the result, shorten the path prefixes, collapse hex runs (fetch ids,
+    // temp names, object ids)
+    let l = line.split(" = ").next().unwrap_or(line).replace(" <unfinished ...>", "").replace(home, "~").replace(root, "@");
+    let l = l.trim_end().trim_end_matches(')').to_string();
+    let mut out = String::new();
+    let mut run = String::new();
+    let flush = |run: &mut String, out: &mut String| {
+        if run.len() >= 8 && run.chars().all(|c| c.is_ascii_hexdigit()) {
+            out.push('#');
+        } else {
+            out.push_str(run);
+        }
+        run.clear();
+    };
+    for c in l.chars() {
+        if c.is_ascii_alphanumeric() {
+            run.push(c);
+        } else {
+            flush(&mut run, &mut out);
+            out.push(c);
+        }
+    }
+    flush(&mut run, &mut out);
+    out.chars().take(200).collect()
+}
+
+/// Parse an strace output file. `with_pid`: written with -f (every line starts with the pid).
+fn parse_trace(path: &Path, home: &Path, with_pid: bool) -> TraceInfo {
+    let text = std::fs::read_to_string(path).unwrap_or_default();
+    let home_s = home.display().to_string();
+    // the per-case directory that holds `home/` and `consumer/`
+    let root_s = home.parent().unwrap_or(home).display().to_string();
+    let cache = format!("{home_s}/.forc");
+    let tmp = format!("{home_s}/.forc/git/checkouts/tmp");
+    let mut info = TraceInfo::default();
+    let mut ranks: BTreeMap<String, u32> = BTreeMap::new();
+    let mut main_pid: Option<String> = None;
+    let mut others_mut: BTreeSet<String> = BTreeSet::new();
+    for raw in text.lines() {
+        let (pid, line) = if with_pid {
+            let mut it = raw.splitn(2, ' ');
+            match (it.next(), it.next()) {
+                (Some(p), Some(r)) => (p.to_string(), r.trim_start()),
+                _ => continue,
+            }
+        } else {
+            (String::new(), raw)
+        };
+        if main_pid.is_none() {
+            main_pid = Some(pid.clone());
+        }
+        let is_main = main_pid.as_deref() == Some(pid.as_str());
+        if line.starts_with("+++") {
+            if line.contains("killed by SIGKILL") && is_main {
+                info.killed = true;
+            }
+            continue;
+        }
+        if line.starts_with("---") || line.starts_with("<...") {
+            continue;
+        }
+        let Some(p) = line.find('(') else { continue };
+        let name = &line[..p];
+        if name.is_empty() || !name.chars().all(|c| c.is_ascii_alphanumeric() || c == '_') {
+            continue;
+        }
+        if raw.contains("(INJECTED)") {
+            info.injected += 1;
+        }
+        // the temporary git repository = `.git` below checkouts/tmp/<id>-<name>-<hash>/; a staging
+        // checkout directory below checkouts/tmp (if the code under test uses one) is "core"
+        let zone = if line.contains(&tmp) && line.contains("/.git") {
+            "tmp"
+        } else if line.contains(&cache) {
+            "core"
+        } else {
+            "outside"
+        };
+        let mutating = is_mutating(name, line);
+        if is_main {
+            let r = ranks.entry(name.to_string()).or_insert(0);
+            *r += 1;
+            info.calls.push(Call { name: name.to_string(), k: *r, zone, mutating, what: normalise_what(line, &home_s, &root_s) });
+        } else {
+            *info.others.entry(pid.clone()).or_default().entry(name.to_string()).or_insert(0) += 1;
+            if mutating && zone != "outside" {
+                others_mut.insert(pid);
+            }
+        }
+    }
+    info.others_mutating_cache = others_mut.len() as u64;
+    info
+}
+
+// ------------------------------------------------------------------------------------------
+// Cases
+
+#[derive(Clone, Debug, serde::Serialize, serde::Deserialize, PartialEq, Eq, PartialOrd, Ord)]
+struct Case {
+    /// fixture seed
+    seed: u64,
+    /// rev | tag | branch | default
+    kind: String,
+    /// kill | eio | enospc | kill-twice | abort-at | fail-at | concurrent
+    fault: String,
+    /// syscall name (kill/eio/enospc/kill-twice) or hook point
+    at: String,
+    /// rank of the invocation (syscall faults), else 0
+    k: u32,
+    /// kill-twice: the second kill, struck during the recovery build
+    #[serde(default)]
+    at2: String,
+    #[serde(default)]
+    k2: u32,
+    /// what the dry run saw at (at, k), for drift detection and for the reader
+    #[serde(default)]
+    expect_what: String,
+    #[serde(default)]
+    zone: String,
+}
+
+impl Case {
+    fn fault_class(&self) -> &'static str {
+        match self.fault.as_str() {
+            "kill" | "kill-twice" | "abort-at" | "concurrent" => "crash",
+            _ => "io-error",
+        }
+    }
+    fn label(&self) -> String {
+        if self.fault == "kill-twice" {
+            format!("{}:{}:{}:{}+{}:{}", self.kind, self.fault, self.at, self.k, self.at2, self.k2)
+        } else {
+            format!("{}:{}:{}:{}", self.kind, self.fault, self.at, self.k)
+        }
+    }
+    fn new(seed: u64, kind: &str, fault: &str, at: &str, k: u32) -> Case {
+        Case { seed, kind: kind.into(), fault: fault.into(), at: at.into(), k, at2: String::new(), k2: 0, expect_what: String::new(), zone: String::new() }
+    }
+}
+
+struct Env {
+    fx: Fixture,
+    /// scratch root for homes / consumers / logs
+    root: PathBuf,
+    expected: BTreeMap<String, BTreeMap<String, Ent>>,
+}
+
+impl Env {
+    fn new(root: &Path, seed: u64) -> Result<Env, String> {
+        std::fs::create_dir_all(root).map_err(|e| e.to_string())?;
+        let fx = make_fixture(root, seed)?;
+        let mut expected = BTreeMap::new();
+        for c in [&fx.c1, &fx.c2] {
+            expected.insert(c.clone(), commit_tree(&fx.repo, c)?);
+        }
+        if expected[&fx.c1] == expected[&fx.c2] {
+            return Err("fixture: the two commits have the same tree".into());
+        }
+        Ok(Env { fx, root: root.to_path_buf(), expected })
+    }
+    fn expected_for(&self, kind: &str) -> (&str, &BTreeMap<String, Ent>) {
+        let c = self.fx.pinned_commit(kind);
+        (c, &self.expected[c])
+    }
+    /// fresh HOME + consumer below `<root>/<name>/`
+    fn fresh(&self, name: &str, kind: &str) -> (PathBuf, PathBuf, PathBuf) {
+        let base = self.root.join(name);
+        clean_dir(&base);
+        let home = base.join("home");
+        std::fs::create_dir_all(&home).ok();
+        let consumer = base.join("consumer");
+        write_consumer(&consumer, &self.fx, kind);
+        (base, home, consumer)
+    }
+}
+
+/// Class of a failing later build, for signatures: what failed, without paths, ids or counts.
+fn error_class(err: &str) -> String {
+    let e = err.to_lowercase();
+    let known = [
+        ("failed to find package", "failed to find package"),
+        ("failed to validate path from entry field", "entry file missing"),
+        ("failed to compile", "compile error"),
+        ("parsing", "dependency source does not parse"),
+        ("injected failure", "injected failure surfaced"),
+        ("panic at", "panic"),
+    ];
+    for (needle, class) in known {
+        if e.contains(needle) {
+            return class.to_string();
+        }
+    }
+    // generic: strip paths, hex and digits
+    let mut out = String::new();
+    for w in err.split_whitespace().take(12) {
+        if w.contains('/') {
+            out.push_str("<path> ");
+        } else {
+            let w: String = w.chars().map(|c| if c.is_ascii_digit() { '#' } else { c }).collect();
+            out.push_str(&w);
+            out.push(' ');
+        }
+    }
+    out.trim().chars().take(80).collect()
+}
+
+/// Baseline sanity for one reference kind: a fault-free fetch+build in a fresh HOME succeeds,
+/// fetched, and its checkout equals the commit tree; a second build re-uses it.
+fn baseline(env: &Env, kind: &str, res: &mut ShardResult) -> Result<(), String> {
+    let (base, home, consumer) = env.fresh(&format!("baseline-{kind}"), kind);
+    let (commit, expected) = env.expected_for(kind);
+    let r = run_child(&home, &consumer, &[], None, &base.join("run1.log"));
+    if !r.ok() {
+        return Err(format!("baseline build ({kind}) failed: exit={:?} error={} log={}", r.exit, r.error(), base.join("run1.log").display()));
+    }
+    let res1 = r.result.clone().unwrap();
+    if res1["commit"].as_str() != Some(commit) {
+        return Err(format!("baseline ({kind}) pinned {} but the fixture says {commit}", res1["commit"]));
+    }
+    if !r.refetched() {
+        return Err(format!("baseline ({kind}) did not pass the fetch hook points: {:?}", r.points()));
+    }
+    let dep_dir = PathBuf::from(res1["dep_dir"].as_str().unwrap_or(""));
+    if !dep_dir.starts_with(&home) {
+        return Err(format!("baseline ({kind}) compiled against {} which is outside the redirected HOME {}", dep_dir.display(), home.display()));
+    }
+    let d = compare_checkout(&dep_dir, expected, commit);
+    if !d.ok() {
+        return Err(format!("baseline ({kind}) checkout differs from the commit tree: {}", d.brief()));
+    }
+    let (class, _, _) = classify_state(&home, expected, commit);
+    if class != "final-dir:complete" {
+        return Err(format!("baseline ({kind}) state classified as {class}"));
+    }
+    // oracle self-test on real data: a damaged copy of the checkout must be told apart
+    let victim = expected.iter().find(|(_, e)| matches!(e, Ent::File { len, .. } if *len > 10)).map(|(p, _)| p.clone());
+    if let Some(v) = victim {
+        let data = std::fs::read(dep_dir.join(&v)).unwrap_or_default();
+        let _ = std::fs::write(dep_dir.join(&v), &data[..data.len() / 2]);
+        let d2 = compare_checkout(&dep_dir, expected, commit);
+        let _ = std::fs::write(dep_dir.join(&v), &data);
+        if d2.ok() || d2.different.len() != 1 {
+            return Err(format!("oracle self-test: a truncated file was not detected ({})", d2.brief()));
+        }
+        res.count("oracle_selftest_truncation_detected");
+        // ... and so must a missing file, an extra file and a damaged index
+        let _ = std::fs::rename(dep_dir.join(&v), dep_dir.join("c30-selftest-extra"));
+        let d3 = compare_checkout(&dep_dir, expected, commit);
+        let _ = std::fs::rename(dep_dir.join("c30-selftest-extra"), dep_dir.join(&v));
+        let ix = std::fs::read(dep_dir.join(".forc_index")).unwrap_or_default();
+        let _ = std::fs::write(dep_dir.join(".forc_index"), b"");
+        let d4 = compare_checkout(&dep_dir, expected, commit);
+        let _ = std::fs::write(dep_dir.join(".forc_index"), &ix);
+        if d3.missing.len() != 1 || d3.extra.len() != 1 || d4.index != "invalid" || !compare_checkout(&dep_dir, expected, commit).ok() {
+            return Err(format!("oracle self-test: missing/extra/index damage not detected ({} | {})", d3.brief(), d4.brief()));
+        }
+        res.count("oracle_selftest_missing_extra_index_detected");
+    }
+    let r2 = run_child(&home, &consumer, &[], None, &base.join("run2.log"));
+    if !r2.ok() {
+        return Err(format!("baseline ({kind}) second build failed: {}", r2.error()));
+    }
+    let d3 = compare_checkout(&dep_dir, expected, commit);
+    if !d3.ok() {
+        return Err(format!("baseline ({kind}) checkout after the second build differs from the commit tree: {}", d3.brief()));
+    }
+    // re-use of the cached checkout is the expected behaviour, but fetching again is allowed by the property
+    res.count(if r2.refetched() { "baseline_second_build_refetched" } else { "baseline_second_build_reused" });
+    res.count("baseline_ok");
+    res.count(&format!("baseline_ok_{kind}"));
+    res.max("max_fixture_tree_entries", expected.len() as u64);
+    let _ = std::fs::remove_dir_all(&base);
+    Ok(())
+}
+
+/// Dry run under `strace -f`: the calls of the fetching (main) thread, and what other threads do.
+fn dry_run(env: &Env, kind: &str, tier: Tier, res: &mut ShardResult) -> Result<TraceInfo, String> {
+    let (base, home, consumer) = env.fresh(&format!("dry-{kind}"), kind);
+    let trace = base.join("trace.txt");
+    let st = Strace { trace_file: &trace, follow: true, inject: None, trace_set: trace_set(tier) };
+    let r = run_child(&home, &consumer, &[], Some(&st), &base.join("run.log"));
+    if !r.ok() {
+        return Err(format!("dry run under strace ({kind}) failed: exit={:?} error={} log={}", r.exit, r.error(), base.join("run.log").display()));
+    }
+    let info = parse_trace(&trace, &home, true);
+    let n = info.calls.iter().filter(|c| c.mutating && c.zone != "outside").count();
+    if n < 20 {
+        return Err(format!("dry run ({kind}) saw only {} calls, {n} mutating in the cache: tracing does not work", info.calls.len()));
+    }
+    // libgit2 has time-dependent re-reads (racy timestamps): enumerate only ranks that exist in
+    // two independent dry runs
+    let (base2, home2, consumer2) = env.fresh(&format!("dry2-{kind}"), kind);
+    let trace2 = base2.join("trace.txt");
+    let st2 = Strace { trace_file: &trace2, follow: true, inject: None, trace_set: trace_set(tier) };
+    let r2 = run_child(&home2, &consumer2, &[], Some(&st2), &base2.join("run.log"));
+    if !r2.ok() {
+        return Err(format!("second dry run under strace ({kind}) failed: exit={:?} error={}", r2.exit, r2.error()));
+    }
+    let info2 = parse_trace(&trace2, &home2, true);
+    let mut count2: BTreeMap<String, u32> = BTreeMap::new();
+    for c in &info2.calls {
+        let e = count2.entry(c.name.clone()).or_insert(0);
+        *e = (*e).max(c.k);
+    }
+    let mut info = info;
+    let before = info.calls.len();
+    info.calls.retain(|c| c.k <= count2.get(&c.name).copied().unwrap_or(0));
+    res.add("dry_run_ranks_dropped_as_unstable", (before - info.calls.len()) as u64);
+    if info.calls.len() != info2.calls.len() {
+        res.count("dry_runs_differed_in_length");
+    }
+    let _ = std::fs::remove_dir_all(&base2);
+    res.max("max_other_threads_mutating_cache", info.others_mutating_cache);
+    if info.others_mutating_cache > 0 {
+        res.inconclusive(format!("{} other threads of the child mutate the cache; only the main thread's calls are enumerated", info.others_mutating_cache));
+    }
+    let _ = std::fs::remove_dir_all(&base);
+    Ok(info)
+}
+
+/// The oracle for "the later build" `r` that ran on `home`. Returns the outcome class and
+/// Some(description) when the property is violated.
+fn judge_later_build(env: &Env, kind: &str, home: &Path, r: &RunOut, res: &mut ShardResult) -> (String, Option<String>) {
+    let (commit, expected) = env.expected_for(kind);
+    match &r.exit {
+        Exit::Timeout => return ("inconclusive:the later build hit the watchdog (hung?)".into(), None),
+        Exit::SpawnError(e) => return (format!("inconclusive:spawn {e}"), None),
+        Exit::Signal(s) => return (format!("inconclusive:later build died with signal {s}"), None),
+        Exit::Code(_) => {}
+    }
+    let Some(result) = &r.result else {
+        return ("inconclusive:no result line from the later build".into(), None);
+    };
+    if !r.ok() {
+        let class = error_class(&r.error());
+        return (format!("recovery-fails({class})"), Some(format!("the later build fails: {}", r.error().chars().take(300).collect::<String>())));
+    }
+    if result["commit"].as_str() != Some(commit) {
+        return ("recovery-pins-other-commit".into(), Some(format!("the later build pinned {} instead of {commit}", result["commit"])));
+    }
+    let dep_dir = PathBuf::from(result["dep_dir"].as_str().unwrap_or(""));
+    if !dep_dir.starts_with(home) {
+        return ("inconclusive:dep dir outside HOME".into(), None);
+    }
+    let d = compare_checkout(&dep_dir, expected, commit);
+    let how = if r.refetched() { "refetched" } else { "reused" };
+    res.count(&format!("recovery_{how}"));
+    if d.degraded > 0 {
+        res.count("checkout_in_degraded_representation_no_symlink_or_filemode");
+    }
+    if d.ok() {
+        res.count("tree_compared_ok");
+        res.add("files_compared", expected.len() as u64);
+        (format!("recovery-ok:{how}"), None)
+    } else {
+        for p in d.detail() {
+            res.count(&format!("partial_checkout_used_{p}"));
+        }
+        (format!("recovery-{how}-partial-checkout({})", d.class()), Some(format!("the later build succeeded against a checkout that is not the pinned commit's tree: {}", d.brief())))
+    }
+}
+
+/// One strace fault run. Returns (run, struck, description of the struck call).
+fn syscall_fault_run(_env: &Env, case: &Case, fault: &str, at: &str, k: u32, home: &Path, consumer: &Path, base: &Path, tag: &str, res: &mut ShardResult) -> (RunOut, bool, String) {
+    let trace = base.join(format!("trace-{tag}.txt"));
+    let inj = match fault {
+        "kill" => format!("{at}:signal=SIGKILL:when={k}"),
+        "eio" => format!("{at}:error=EIO:when={k}"),
+        _ => format!("{at}:error=ENOSPC:when={k}"),
+    };
+    // only the main thread is traced (no -f): the counter of `when=` is the main thread's
+    let st = Strace { trace_file: &trace, follow: false, inject: Some(inj), trace_set: at.to_string() };
+    let run = run_child(home, consumer, &[], Some(&st), &base.join(format!("fault-{tag}.log")));
+    let info = parse_trace(&trace, home, false);
+    let hit = info.calls.iter().find(|c| c.name == at && c.k == k);
+    let struck = if fault == "kill" { info.killed && run.exit == Exit::Signal(libc::SIGKILL) && hit.is_some() } else { info.injected > 0 };
+    let mut what = String::new();
+    if let Some(h) = hit {
+        what = h.what.clone();
+        if struck && tag == "1" && !case.expect_what.is_empty() {
+            if h.what == case.expect_what {
+                res.count("struck_call_same_as_dry_run");
+            } else {
+                res.count("struck_call_differs_from_dry_run");
+            }
+        }
+    }
+    (run, struck, what)
+}
+
+fn run_case(env: &Env, case: &Case, slot: &str, res: &mut ShardResult) {
+    res.evaluations += 1;
+    let kind = case.kind.as_str();
+    let (commit, expected) = env.expected_for(kind);
+    let (base, home, consumer) = env.fresh(slot, kind);
+    // ---- the fault run
+    let mut struck;
+    let mut struck_what = String::new();
+    let fault_run: RunOut;
+    let mut waiter: Option<RunOut> = None;
+    match case.fault.as_str() {
+        "kill" | "eio" | "enospc" => {
+            let (r, s, w) = syscall_fault_run(env, case, &case.fault, &case.at, case.k, &home, &consumer, &base, "1", res);
+            fault_run = r;
+            struck = s;
+            struck_what = w;
+        }
+        "kill-twice" => {
+            let (r, s, w) = syscall_fault_run(env, case, "kill", &case.at, case.k, &home, &consumer, &base, "1", res);
+            struck = s;
+            struck_what = w;
+            if r.exit == Exit::Timeout {
+                fault_run = r;
+            } else {
+                // the first recovery attempt is killed as well
+                let (r2, s2, w2) = syscall_fault_run(env, case, "kill", &case.at2, case.k2, &home, &consumer, &base, "2", res);
+                if s2 {
+                    res.count("second_kill_struck");
+                    struck_what = format!("{struck_what} ; then {w2}");
+                } else {
+                    res.count("second_kill_not_struck");
+                }
+                struck = struck || s2;
+                fault_run = r2;
+            }
+        }
+        "abort-at" | "fail-at" => {
+            let extra = vec![format!("--{}", case.fault), case.at.clone()];
+            fault_run = run_child(&home, &consumer, &extra, None, &base.join("fault.log"));
+            struck = home.join("c30.struck").exists();
+            let _ = std::fs::remove_file(home.join("c30.struck"));
+            if case.fault == "abort-at" && struck && fault_run.exit != Exit::Signal(libc::SIGKILL) {
+                res.inconclusive(format!("{}: abort point struck but exit was {:?}", case.label(), fault_run.exit));
+                return;
+            }
+        }
+        "concurrent" => {
+            // A holds inside the critical section; B (fault free) queues up on the lock; A is killed.
+            let extra = vec!["--hold-at".to_string(), case.at.clone()];
+            let start = Instant::now();
+            let mut a = match spawn_child(&home, &consumer, &extra, None, &base.join("fault.log")) {
+                Ok(c) => c,
+                Err(e) => {
+                    res.inconclusive(format!("{}: spawn: {e}", case.label()));
+                    return;
+                }
+            };
+            let held = loop {
+                if home.join("c30.held").exists() {
+                    break true;
+                }
+                if let Ok(Some(_)) = a.try_wait() {
+                    break false;
+                }
+                if start.elapsed() > CHILD_WATCHDOG {
+                    break false;
+                }
+                std::thread::sleep(Duration::from_millis(3));
+            };
+            if !held {
+                let finished = matches!(a.try_wait(), Ok(Some(_)));
+                kill_group(&mut a);
+                if finished {
+                    // the point does not exist in this tree: nothing was injected
+                    res.count("fault_not_struck");
+                    res.count("fault_not_struck_concurrent");
+                    res.count("trivial_cases");
+                } else {
+                    res.inconclusive(format!("{}: the holder never reached the point", case.label()));
+                }
+                return;
+            }
+            let _ = std::fs::remove_file(home.join("c30.held"));
+            // B is another project depending on the same repository
+            let consumer_b = base.join("consumer-b");
+            write_consumer(&consumer_b, &env.fx, kind);
+            let bstart = Instant::now();
+            let b = spawn_child(&home, &consumer_b, &[], None, &base.join("waiter.log"));
+            // give B time to reach the lock (it cannot pass it while A lives)
+            std::thread::sleep(Duration::from_millis(500));
+            let mut b = match b {
+                Ok(b) => b,
+                Err(e) => {
+                    kill_group(&mut a);
+                    res.inconclusive(format!("{}: spawn waiter: {e}", case.label()));
+                    return;
+                }
+            };
+            match b.try_wait() {
+                Ok(None) => res.count("concurrent_waiter_blocked_while_holder_alive"),
+                _ => res.count("concurrent_waiter_finished_while_holder_alive"),
+            }
+            kill_group(&mut a);
+            struck = true;
+            fault_run = RunOut { exit: Exit::Signal(libc::SIGKILL), result: None };
+            waiter = Some(wait_child(b, &base.join("waiter.log"), bstart));
+        }
+        other => {
+            res.harness_fault = Some(format!("unknown fault kind {other}"));
+            return;
+        }
+    }
+    if fault_run.exit == Exit::Timeout {
+        res.inconclusive(format!("{}: fault run hit the watchdog", case.label()));
+        res.count("fault_run_timeouts");
+        return;
+    }
+    if let Exit::SpawnError(e) = &fault_run.exit {
+        res.inconclusive(format!("{}: spawn: {e}", case.label()));
+        return;
+    }
+    if !struck {
+        // the invocation did not occur in this run (sequence drifted) or the point was not reached
+        res.count("fault_not_struck");
+        res.count(&format!("fault_not_struck_{}", case.fault));
+    } else {
+        match case.fault.as_str() {
+            "abort-at" => res.count("hook_abort_struck"),
+            "fail-at" => res.count("hook_fail_struck"),
+            "concurrent" => res.count("concurrent_holder_killed"),
+            f => {
+                res.count(&format!("fault_struck_{f}"));
+                res.count(&format!("struck_at_{}", case.at));
+                if !case.zone.is_empty() {
+                    res.count(&format!("struck_zone_{}", case.zone));
+                }
+            }
+        }
+        if matches!(case.fault.as_str(), "eio" | "enospc" | "fail-at") {
+            // how the faulted run itself ended (evidence only)
+            if fault_run.ok() {
+                res.count("io_error_tolerated_by_fetch");
+            } else if fault_run.result.is_some() {
+                res.count("io_error_reported_by_fetch");
+            } else {
+                res.count("io_error_run_died");
+            }
+        }
+    }
+    // ---- state after the fault
+    let (state, tmp_left, _) = classify_state(&home, expected, commit);
+    res.count(&format!("state_{state}"));
+    if tmp_left {
+        res.count("state_with_tmp_leftovers");
+    }
+    let nontrivial = struck && state != "nothing";
+    if nontrivial {
+        res.note_nontrivial(hash64(case.label().as_bytes()));
+    } else {
+        res.count("trivial_cases");
+    }
+    // ---- the later build(s)
+    let mut verdicts: Vec<(String, String, Option<String>)> = vec![];
+    if let Some(w) = &waiter {
+        let (outcome, viol) = judge_later_build(env, kind, &home, w, res);
+        res.count("concurrent_waiter_judged");
+        verdicts.push(("the concurrent build that was waiting for the lock".into(), outcome, viol));
+    }
+    let rec = run_child(&home, &consumer, &[], None, &base.join("recovery.log"));
+    res.count("recovery_runs");
+    let (outcome, viol) = judge_later_build(env, kind, &home, &rec, res);
+    verdicts.push(("a fresh build".into(), outcome, viol));
+    let mut keep = false;
+    for (who, outcome, viol) in verdicts {
+        if let Some(rest) = outcome.strip_prefix("inconclusive:") {
+            res.inconclusive(format!("{} ({who}): {rest}", case.label()));
+            keep = true;
+            continue;
+        }
+        res.count(&format!("outcome_{}", outcome.split('(').next().unwrap_or("")));
+        if let Some(desc) = viol {
+            let sig = format!("{}-leaves-{} -> {}", case.fault_class(), state, outcome);
+            let description = format!(
+                "{} during the fetch of a git dependency ({}; reference kind `{}`; {} at {}{}{}) left the forc cache in state `{}`; {}: {}",
+                case.fault_class(),
+                if case.fault_class() == "crash" { "process killed" } else { "a file-system call failed" },
+                kind,
+                case.fault,
+                case.at,
+                if case.k > 0 { format!(" #{}", case.k) } else { String::new() },
+                if struck_what.is_empty() { String::new() } else { format!(" = {struck_what}") },
+                state,
+                who,
+                desc
+            );
+            res.violation(sig, description, serde_json::to_value(case).unwrap());
+            keep = true;
+        }
+    }
+    res.sample(json!({"case": case.label(), "struck": struck, "struck_call": struck_what, "state_after_fault": state, "fault_run_exit": format!("{:?}", fault_run.exit), "recovery": rec.result.as_ref().map(|r| json!({"ok": r["ok"], "error": r["error"], "points": r["points"]}))}));
+    if !keep {
+        let _ = std::fs::remove_dir_all(&base);
+    } else {
+        // keep logs and traces, drop the bulky trees
+        let _ = std::fs::remove_dir_all(home.join(".forc"));
+    }
+}
+
+// ------------------------------------------------------------------------------------------
+// Enumeration
+
+/// Which reference kinds get the full syscall enumeration / only the hook points.
+fn kinds_for(tier: Tier, seed: u64) -> (Vec<&'static str>, Vec<&'static str>) {
+    match tier {
+        Tier::Thorough => (REF_KINDS.to_vec(), vec![]),
+        Tier::Quick => (vec![REF_KINDS[(seed % 4) as usize]], vec![REF_KINDS[((seed + 2) % 4) as usize]]),
+    }
+}
+
+fn enumerate_cases(seed: u64, tier: Tier, kind: &str, dry: Option<&TraceInfo>, res: &mut ShardResult) -> Vec<Case> {
+    let mut cases = vec![];
+    // H6 points
+    for p in POINTS {
+        for f in ["abort-at", "fail-at"] {
+            cases.push(Case::new(seed, kind, f, p, 0));
+        }
+    }
+    let Some(info) = dry else { return cases };
+    let thorough = tier == Tier::Thorough;
+    let (mut n_core, mut n_tmp, mut n_read) = (0usize, 0usize, 0usize);
+    let mut core_targets: Vec<&Call> = vec![];
+    for c in &info.calls {
+        if c.zone == "outside" {
+            continue;
+        }
+        let mk = |fault: &str| {
+            let mut x = Case::new(seed, kind, fault, &c.name, c.k);
+            x.expect_what = c.what.clone();
+            x.zone = c.zone.to_string();
+            x
+        };
+        // would the same (syscall, k) exist in another thread? (only the main thread is traced in
+        // fault runs, so this is informational)
+        if info.others.values().any(|m| m.get(&c.name).copied().unwrap_or(0) >= c.k) {
+            res.count("targets_whose_rank_is_also_reached_by_a_helper_thread");
+        }
+        if c.mutating && c.zone == "core" {
+            // checkout directory, lock files, cache skeleton: every call is a crash point in both tiers
+            n_core += 1;
+            core_targets.push(c);
+            cases.push(mk("kill"));
+            if thorough || (n_core + seed as usize) % 4 == 0 {
+                cases.push(mk("eio"));
+            }
+            if allocating(&c.name) && (thorough || (n_core + seed as usize) % 8 == 1) {
+                cases.push(mk("enospc"));
+            }
+        } else if c.mutating {
+            // the temporary git repository (init, pack download, refs, cleanup)
+            n_tmp += 1;
+            let pick = |stride: usize| (n_tmp + seed as usize) % stride == 0;
+            if thorough || pick(16) {
+                cases.push(mk("kill"));
+            }
+            if (thorough && pick(6)) || (!thorough && pick(48)) {
+                cases.push(mk("eio"));
+            }
+            if allocating(&c.name) && thorough && pick(12) {
+                cases.push(mk("enospc"));
+            }
+        } else if thorough {
+            // read-side I/O failures (stat, open O_RDONLY, getdents, readlink, flock, read ...)
+            n_read += 1;
+            let stride = if c.zone == "core" { 8 } else { 32 };
+            if (n_read + seed as usize) % stride == 0 {
+                cases.push(mk("eio"));
+            }
+        }
+    }
+    res.max("max_tmp_repo_kill_stride", tier.pick(16, 1));
+    res.max(&format!("max_core_mutating_calls_{kind}"), n_core as u64);
+    res.max(&format!("max_tmp_repo_mutating_calls_{kind}"), n_tmp as u64);
+    // two crashes in a row: the recovery build is killed too (seed-determined pairs of core calls)
+    if !core_targets.is_empty() {
+        let mut rng = rng_for(seed, 0xC30, 7 + REF_KINDS.iter().position(|k| *k == kind).unwrap_or(0) as u64);
+        let n = tier.pick(4, 30);
+        for _ in 0..n {
+            let a = core_targets[rng.gen_range(0..core_targets.len())];
+            let b = core_targets[rng.gen_range(0..core_targets.len())];
+            let mut x = Case::new(seed, kind, "kill-twice", &a.name, a.k);
+            x.at2 = b.name.clone();
+            x.k2 = b.k;
+            x.expect_what = a.what.clone();
+            x.zone = "core".into();
+            cases.push(x);
+        }
+    }
+    // a killed lock holder with a waiter
+    if thorough {
+        for p in POINTS {
+            cases.push(Case::new(seed, kind, "concurrent", p, 0));
+        }
+    } else {
+        cases.push(Case::new(seed, kind, "concurrent", "fetch.dir_created", 0));
+        cases.push(Case::new(seed, kind, "concurrent", "fetch.checked_out", 0));
+    }
+    cases.sort();
+    cases.dedup();
+    cases
+}
+
+fn case_key(c: &Case) -> String {
+    format!("{}|{}|{}|{}|{}|{}", c.kind, c.fault, c.at, c.k, c.at2, c.k2)
+}
+
+fn shard(ctx: &ShardCtx) -> ShardResult {
+    let mut res = ShardResult::default();
+    let root = ctx.work();
+    let env = match Env::new(&root, ctx.seed) {
+        Ok(e) => e,
+        Err(e) => {
+            res.harness_fault = Some(format!("fixture: {e}"));
+            return res;
+        }
+    };
+    res.max("max_fixture_bytes", env.fx.bytes);
+    res.max("max_fixture_files", env.fx.nfiles as u64);
+    let (full, hooks_only) = kinds_for(ctx.tier, ctx.seed);
+    eprintln!("[{:7.1}s] fixture ready", ctx.start.elapsed().as_secs_f64());
+    let mut cases = vec![];
+    for kind in full.iter().chain(hooks_only.iter()) {
+        if let Err(e) = baseline(&env, kind, &mut res) {
+            res.harness_fault = Some(e);
+            return res;
+        }
+        let mut info = None;
+        if full.contains(kind) {
+            match dry_run(&env, kind, ctx.tier, &mut res) {
+                Ok(i) => {
+                    res.max(&format!("max_calls_traced_{kind}"), i.calls.len() as u64);
+                    info = Some(i);
+                }
+                Err(e) => {
+                    res.harness_fault = Some(e);
+                    return res;
+                }
+            }
+        }
+        eprintln!("[{:7.1}s] baseline and dry runs for `{kind}` done", ctx.start.elapsed().as_secs_f64());
+        let mut scratch = ShardResult::default();
+        let r = if ctx.shard == 0 { &mut res } else { &mut scratch };
+        cases.extend(enumerate_cases(ctx.seed, ctx.tier, kind, info.as_ref(), r));
+    }
+    // every shard enumerates on its own dry run; the enumerations should be identical. Publish a
+    // digest (min and max over shards must agree) and assign cases by key so that a drift in one
+    // shard cannot silently shift the assignment of all later cases.
+    let keys: Vec<String> = cases.iter().map(case_key).collect();
+    let digest = hash64(keys.join("\n").as_bytes()) & 0xffff_ffff;
+    res.max("max_enumeration_digest", digest);
+    res.max("max_neg_enumeration_digest", u32::MAX as u64 - digest);
+    res.max("max_cases_enumerated", cases.len() as u64);
+    res.max("max_kill_cases_enumerated", cases.iter().filter(|c| c.fault == "kill").count() as u64);
+    for f in ["eio", "enospc", "kill-twice", "abort-at", "fail-at", "concurrent"] {
+        res.max(&format!("max_{f}_cases_enumerated"), cases.iter().filter(|c| c.fault == f).count() as u64);
+    }
+    res.max("max_eio_read_side_cases_enumerated", cases.iter().filter(|c| c.fault == "eio" && !is_mutating_name(&c.at, &c.expect_what)).count() as u64);
+    // long cases first would not help: keep the enumeration order, it interleaves early and late calls badly
+    // for the time budget otherwise; shuffle deterministically instead
+    let mut mine: Vec<&Case> = cases.iter().filter(|c| hash64(format!("{}|{}", ctx.seed, case_key(c)).as_bytes()) % ctx.nshards == ctx.shard).collect();
+    mine.sort_by_key(|c| hash64(format!("order|{}|{}", ctx.seed, case_key(c)).as_bytes()));
+    // the hook-point and concurrency cases first: they must not fall off the end of the budget
+    // then the crash points (the `exhaustive` claim is about them), then the I/O failure points
+    mine.sort_by_key(|c| match c.fault.as_str() {
+        "kill" => 1,
+        "kill-twice" => 2,
+        "eio" | "enospc" => 3,
+        _ => 0,
+    });
+    // calibration aid: C30_FOCUS=eio,enospc restricts the run to some fault kinds
+    if let Ok(f) = std::env::var("C30_FOCUS") {
+        let kinds: Vec<&str> = f.split(',').collect();
+        let before = mine.len();
+        mine.retain(|c| kinds.contains(&c.fault.as_str()));
+        res.add("cases_filtered_out_by_C30_FOCUS", (before - mine.len()) as u64);
+    }
+    // ptrace round trips become very slow on an overloaded machine; a shard always runs a minimum
+    // number of its cases so that the run still observes something (wall-clock is never a verdict)
+    let min_cases = 5usize;
+    for (i, case) in mine.iter().enumerate() {
+        if !ctx.time_left() && i >= min_cases {
+            res.count("cases_skipped_out_of_time");
+            if case.fault == "kill" {
+                res.count("kill_cases_skipped_out_of_time");
+            }
+            continue;
+        }
+        journal_current(ctx, &case.label());
+        let t0 = Instant::now();
+        run_case(&env, case, "case", &mut res);
+        eprintln!("[{:7.1}s] case {} took {:.2}s", ctx.start.elapsed().as_secs_f64(), case.label(), t0.elapsed().as_secs_f64());
+        res.count("cases_run");
+        res.count(&format!("cases_run_{}", case.fault));
+        if i % 25 == 0 {
+            write_partial(ctx, &res);
+        }
+    }
+    res
+}
+
+fn extra(res: &ShardResult) -> Value {
+    let c = |k: &str| res.counters.get(k).copied().unwrap_or(0);
+    let same_enumeration = c("max_enumeration_digest") == u32::MAX as u64 - c("max_neg_enumeration_digest");
+    let all_kills = c("max_kill_cases_enumerated") > 0 && c("cases_run_kill") >= c("max_kill_cases_enumerated") && c("kill_cases_skipped_out_of_time") == 0 && c("fault_not_struck_kill") == 0;
+    let all_kinds = c("baseline_ok_rev") > 0 && c("baseline_ok_tag") > 0 && c("baseline_ok_branch") > 0 && c("baseline_ok_default") > 0;
+    // 5 hook points x {abort, fail} and 5 concurrent holders per reference kind
+    let all_hooks = c("hook_abort_struck") >= 20 && c("hook_fail_struck") >= 20 && c("concurrent_holder_killed") >= 20;
+    json!({
+        "exhaustive": all_kinds && all_kills && all_hooks && c("max_tmp_repo_kill_stride") == 1 && c("cases_filtered_out_by_C30_FOCUS") == 0,
+        "enumeration_identical_in_all_shards": same_enumeration,
+        "cases_enumerated": c("max_cases_enumerated"),
+        "cases_run": c("cases_run"),
+        "cases_skipped_out_of_time": c("cases_skipped_out_of_time"),
+        "kill_points_enumerated": c("max_kill_cases_enumerated"),
+        "kill_points_run_and_struck": c("fault_struck_kill"),
+        "kill_points_rank_not_reached_in_the_fault_run": c("fault_not_struck_kill"),
+        "io_failure_points_run_and_struck": c("fault_struck_eio") + c("fault_struck_enospc"),
+        "exhaustive_note": "exhaustive = for the enumerated repository and all four reference kinds, EVERY file-system-mutating call the fetching thread issues below $HOME/.forc (rank 1..N of every syscall, as listed by two strace dry runs) was used as a SIGKILL point and each kill really struck, and every hook point was used as abort point, as failure point and as the place where a lock holder is killed in front of a waiter. Both tiers enumerate every mutating call outside the temporary git repository; the quick tier only samples the calls inside the temporary git repository (every 16th) and one reference kind, so it is never marked exhaustive. I/O failure points (EIO/ENOSPC) are enumerated densely outside the temporary repository and sampled inside it; they are not part of the exhaustiveness claim.",
+    })
+}
+
+fn replay(case: &Value) -> ShardResult {
+    let mut res = ShardResult::default();
+    let case: Case = match serde_json::from_value(case.clone()) {
+        Ok(c) => c,
+        Err(e) => {
+            res.harness_fault = Some(format!("bad replay case: {e}"));
+            return res;
+        }
+    };
+    let root = work_dir("C30").join("replay");
+    clean_dir(&root);
+    let env = match Env::new(&root, case.seed) {
+        Ok(e) => e,
+        Err(e) => {
+            res.harness_fault = Some(format!("fixture: {e}"));
+            return res;
+        }
+    };
+    if let Err(e) = baseline(&env, &case.kind, &mut res) {
+        res.harness_fault = Some(e);
+        return res;
+    }
+    run_case(&env, &case, "case", &mut res);
+    for n in &res.inconclusive_notes {
+        eprintln!("  inconclusive: {n}");
+    }
+    for s in &res.samples {
+        eprintln!("  observed: {s}");
+    }
+    res
+}
